@@ -17,6 +17,7 @@ ASSUMPTIONS = [
     "only cpu and meta devices exist here",
 ]
 expand_task = texp.expand_task
+ladder_task = texp.ladder_task
 ALLQ = ["qint8", "qfloat8", "qfloat8_e4m3fn", "qfloat8_e5m2", "qint4", "qint2"]
 
 
